@@ -24,8 +24,9 @@ breaks, C05/B4 missed; the rows show the state after the three additions describ
 12 behaviour-preserving rewrites written by sub-agents (H1 main loop of co_run, H2 co_shutdown/_tidy_tasks,
 H3 window.py + Scheduler.co_run / job.py life cycle, H4 graph queries, H5 dot export / sequence.py + requires,
 H6 whole-package pyupgrade-style pass / type hints + helper extraction), each with the repository's
-tests passing, each run against all 20 quick checks: 240 runs, every one silent (no VIOLATION line
-of either kind).  H7A (by hand): the window rewritten on asyncio.Semaphore instead of the bounded
+tests passing, each run against all 20 quick checks, twice (when they were written, and again on the
+final machinery with the inspector, the targeted generators and the added oracles): every run silent
+(no VIOLATION line of either kind).  H7A (by hand): the window rewritten on asyncio.Semaphore instead of the bounded
 Queue, a different primitive with the same behaviour: the R checks that exercise windows stay silent.
 """
 
